@@ -169,6 +169,9 @@ def oracle(c, r):
                         yield ("iso-not-rigid", "Iso3 matrix rows %d,%d have dot %r" % (i, j, d))
                         return
         what = "%dD curve of %d vertices under %r" % (dim, len(a["points"]), c["iso"])
+        # the transformed curve is the same entity in the new frame: same vertex tolerance, and T then its inverse restores it
+        if b.get("tol") != a.get("tol") or r.get("back_tol") != a.get("tol"):
+            yield ("tolerance-kept", what + ": vertex tolerance %r became %r (and %r after transforming back)" % (a.get("tol"), b.get("tol"), r.get("back_tol")))
         if abs(a["length"] - b["length"]) > 1e-9 * max(a["length"], 1e-12) + 1e-12 * tmag:
             yield ("length-invariant", what + ": length %r became %r" % (a["length"], b["length"]))
         if len(a["points"]) != len(b["points"]):
